@@ -2033,3 +2033,26 @@ def late_binding_rule(repo, rep, modnames):
                                  'computed with the later binding' % (stmt_text(nd)[:70], var, var, detail), expected='a list / tuple built on the spot', actual=stmt_text(nd)[:100])
             else:
                 rep.holds('R-STATE', key, wh(node) if f is not None else '%s:1' % m.relpath, 'no closure or lazy generator reads a variable that changes before it runs', work=False)
+
+
+def chained_index_rule(repo, rep, funcs, params=('vcv', 'vcv_local', 'vcv_cart', 'var1', 'var2', 'cov12')):
+    """`m[i][j]` and `m[i, j]` are the same element of an ndarray, not of a numpy.matrix: there `m[i]` is still a 1 x n MATRIX and `[j]` indexes
+    its rows again (IndexError for j > 0, the wrong element never).  A covariance handed in as numpy.matrix - "any 3x3 matrix" - is read
+    correctly by tuple indexing only.  One instance per listed function: element reads of its covariance parameters."""
+    for mod, q in funcs:
+        f = repo.func(mod, q)
+        names = set(p.name for p in f.params) & set(params)
+        key = 'R-TYPE::%s::%s::element-access' % (f.module.relpath, q)
+        if not names:
+            continue
+        bad = None
+        for n in ast.walk(f.node):
+            if isinstance(n, ast.Subscript) and isinstance(n.value, ast.Subscript) and isinstance(n.value.value, ast.Name) and n.value.value.id in names \
+                    and not isinstance(n.value.slice, (ast.Tuple, ast.Slice)) and not isinstance(n.slice, (ast.Tuple, ast.Slice)) and isinstance(n.ctx, ast.Load):
+                bad = bad or n
+        if bad is not None:
+            rep.violated('R-TYPE', key, where(f, bad), '`%s` reads an element of the caller\'s matrix by chained indexing: for a numpy.matrix the first index returns a 1 x n matrix and the second '
+                         'indexes rows again - IndexError (or a shape error in the store) where `%s[i, j]` reads the element; an ndarray hides it' % (stmt_text(bad), bad.value.value.id),
+                         expected='%s[i, j]' % bad.value.value.id, actual=stmt_text(bad))
+        else:
+            rep.holds('R-TYPE', key, where(f, f.node), 'elements of the covariance arguments are read with one index tuple', work=False)
